@@ -990,6 +990,12 @@ def call_builtin(it, f, args, kwargs, node):
     from . import contracts as _c
     if f is _c.forall:
         return q_forall(it, args, node)
+    from . import ghosts
+    r_ = ghosts.try_call(it, f, args, kwargs, node)
+    if r_ is not NotImplemented:
+        return r_
+    if f is builtins.int and len(args) == 1 and isinstance(args[0], ghosts.GhostClockValue):
+        return args[0].as_int
     if f is _c.implies:
         a, b = it.truth(args[0]), it.truth(args[1])
         if isinstance(a, bool):
